@@ -283,6 +283,8 @@ def mutate(md, rng, outside=False):
             la, lb = _num_of(R.dget(a, 'length') or R.N()), _num_of(R.dget(b, 'length') or R.N())
             if la is not None and lb is not None:
                 d = rng.choice([1, 5, K, int(la) + 1, 0.5])
+                if d == 0.5 and max(abs(la), abs(lb)) >= 2 ** 1000:
+                    d = 1           # not representable as float
                 if d == 0.5:
                     na, nb = R.F(float(la) + 0.5), R.F(float(lb) - 0.5)
                 else:
@@ -832,7 +834,7 @@ def evaluate(ctx, drv, cases):
             if 'err' in m and m['err'] == 'value':
                 ctx.machinery_error(f'model {name} leaked ValueError', case)
             if 'err' in m and m['err'].startswith('internal') and thm and (name != 'magnet' or rep['hypMagnet']):
-                ctx.machinery_error(f'model {name} = {m["err"]} under the hypothesis of C07_only_metainfo_error', case)
+                ctx.machinery_error(f'model {name} = {m["err"]} under the hypothesis outsideD07fD07j of C07_validate_only_metainfo_error / C07_only_metainfo_error_*_partial', case)
         if 'ok' in rep['dump'] and not (rep['modelSound'] or {}).get('sound'):
             ctx.machinery_error('model dump not Sound although C07_export_sound is proved', case)
         if ('ok' in rep['ready'] and rep['ready']['ok']) != ('ok' in rep['validate']):
